@@ -1,4 +1,1491 @@
-import RecipeGrid.Model.Compiler
+import RecipeGrid.Lemmas.Compiler
+/-! C01 — elaboration (name resolution) refines the documented *by-name* meaning of a description.
+
+    The specification (`Spec.*`) never copies a tree and keeps no table of trees: a reference is the pair
+    `(statement id, output index)` of the definition its name resolves to.  `embed` is the bridge to the compiler's
+    by-copy representation.  `elab_refines_spec` says the compiler computes exactly `embed ∘ Spec.blocks`, with the
+    same error at the same position otherwise and no other error; `elab_table` describes the named-outputs table it
+    ends with.  Model-only helper lemmas are in `Lemmas/Compiler.lean`. -/
 namespace RG.C01
-theorem placeholder_trivial : compileString [] = [] := by decide
+
+-- ================================================================ the by-name specification
+
+inductive NTree where
+  | ingredient (d : SVS) (q : Option Quantity)
+  | step (d : SVS) (inputs : List NTree)
+  /-- a reference BY NAME to output `idx` of statement `sid` -/
+  | nref (sid idx : Nat) (amount : Amount)
+deriving Inhabited
+
+structure NStmt where
+  block : Nat
+  tree : NTree
+  /-- `[]` when the statement defines nothing -/
+  names : List SVS
+  showNames : Bool
+
+inductive SpecErr where
+  | redefined (block off : Nat)
+  | proportion (block off : Nat)
+deriving DecidableEq
+
+/-- the names defined by statement `sid`, numbered from `i` -/
+def stmtDefs (sid : Nat) : Nat → List SVS → List (SVS × Nat × Nat)
+  | _, [] => []
+  | i, n :: ns => (normaliseName n, sid, i) :: stmtDefs sid (i + 1) ns
+
+def definedNamesFrom : Nat → List NStmt → List (SVS × Nat × Nat)
+  | _, [] => []
+  | sid, s :: ss => stmtDefs sid 0 s.names ++ definedNamesFrom (sid + 1) ss
+
+/-- the output names defined by the statements elaborated so far, in definition order:
+    (normalised name, statement id, output index) -/
+def definedNames (done : List NStmt) : List (SVS × Nat × Nat) := definedNamesFrom 0 done
+
+/-- the definition a (normalised) name resolves to: "ignoring case and surrounding whitespace" is `==` after
+    `normaliseName` -/
+def lookup (done : List NStmt) (key : SVS) : Option (Nat × Nat) :=
+  ((definedNames done).find? (fun d => d.1 == key)).map (·.2)
+
+/-- a leaf is a reference iff its normalised name was defined by an EARLIER statement -/
+def Spec.leaf (done : List NStmt) (block : Nat) (name : AString) (amount : Option AAmount) : Except SpecErr NTree :=
+  let n := compileString name
+  match lookup done (normaliseName n) with
+  | some (sid, idx) => .ok (.nref sid idx (compileAmount amount))
+  | none =>
+    match amount with
+    | some (.prop off ..) => .error (.proportion block off)
+    | some (.qty _ v u sp p) => .ok (.ingredient n (some (compileQuantity v u sp p)))
+    | none => .ok (.ingredient n none)
+
+mutual
+def Spec.expr (done : List NStmt) (block : Nat) : AExpr → Except SpecErr NTree
+  | .step name inputs => do
+    let ts ← Spec.exprs done block inputs
+    pure (.step (compileString name) ts)
+  | .ref name amount => Spec.leaf done block name amount
+def Spec.exprs (done : List NStmt) (block : Nat) : List AExpr → Except SpecErr (List NTree)
+  | [] => .ok []
+  | e :: es => do
+    let t ← Spec.expr done block e
+    let ts ← Spec.exprs done block es
+    pure (t :: ts)
+end
+
+/-- the single ingredient of a chain of single-input steps -/
+def NTree.inferName : NTree → Option SVS
+  | .ingredient d _ => some d
+  | .step _ [i] => i.inferName
+  | _ => none
+
+/-- the first written name (left to right) that is already defined — by an earlier statement or by an earlier name of
+    this statement — is rejected -/
+def Spec.checkNames (block : Nat) : List SVS → List AString → Except SpecErr Unit
+  | _, [] => .ok ()
+  | defined, a :: as =>
+    let key := normaliseName (compileString a)
+    if defined.any (· == key) then .error (.redefined block a.offset)
+    else Spec.checkNames block (defined ++ [key]) as
+
+def Spec.stmt (done : List NStmt) (block : Nat) (s : AStmt) : Except SpecErr NStmt := do
+  let t ← Spec.expr done block s.expr
+  match s.outputs with
+  | some (o :: os) => do
+    Spec.checkNames block ((definedNames done).map (·.1)) (o :: os)
+    pure { block := block, tree := t, names := (o :: os).map compileString, showNames := true }
+  | _ =>
+    match t.inferName with
+    | some n => pure { block := block, tree := t, names := [n], showNames := false }
+    | none => pure { block := block, tree := t, names := [], showNames := false }
+
+/-- the statements of one block, each against everything before it; returns all statements so far -/
+def Spec.stmts (block : Nat) : List NStmt → List AStmt → Except SpecErr (List NStmt)
+  | done, [] => .ok done
+  | done, s :: ss => do
+    let n ← Spec.stmt done block s
+    Spec.stmts block (done ++ [n]) ss
+
+def Spec.blocksFrom : Nat → List NStmt → List (List AStmt) → Except SpecErr (List NStmt)
+  | _, done, [] => .ok done
+  | i, done, b :: bs => do
+    let done' ← Spec.stmts i done b
+    Spec.blocksFrom (i + 1) done' bs
+
+/-- the by-name meaning of a description (one list of statements per block) -/
+def Spec.blocks (asts : List (List AStmt)) : Except SpecErr (List NStmt) := Spec.blocksFrom 0 [] asts
+
+-- ================================================================ from by-name to by-copy
+
+mutual
+/-- `roots[sid]` is the tree already built for statement `sid` -/
+def embedTree (roots : List Tree) : NTree → Tree
+  | .ingredient d q => .ingredient d q
+  | .step d inputs => .step d (embedTrees roots inputs)
+  | .nref sid idx a => .reference (roots[sid]?.getD default) idx a
+def embedTrees (roots : List Tree) : List NTree → List Tree
+  | [] => []
+  | t :: ts => embedTree roots t :: embedTrees roots ts
+end
+
+def embedStmt (roots : List Tree) (s : NStmt) : Tree :=
+  if s.names.isEmpty then embedTree roots s.tree else .sub (embedTree roots s.tree) s.names s.showNames
+
+/-- the root tree of every statement, built in order -/
+def rootsOf (ns : List NStmt) : List Tree := ns.foldl (fun roots s => roots ++ [embedStmt roots s]) []
+
+/-- the compiler's representation: one list of root trees per block -/
+def embed (nblocks : Nat) (ns : List NStmt) : List (List Tree) :=
+  (List.range nblocks).map fun b => ((ns.zip (rootsOf ns)).filter (fun p => p.1.block == b)).map (·.2)
+
+def SpecErr.toCompile : SpecErr → CompileResult
+  | .redefined b off => .redefined b off
+  | .proportion b off => .proportion b off
+
+-- ---------------------------------------------------------------- the table, by name
+
+mutual
+/-- the reference leaves of a tree in source order: (statement id, output index, amount) -/
+def NTree.refs : NTree → List (Nat × Nat × Amount)
+  | .ingredient .. => []
+  | .step _ inputs => NTree.refsList inputs
+  | .nref sid idx a => [(sid, idx, a)]
+def NTree.refsList : List NTree → List (Nat × Nat × Amount)
+  | [] => []
+  | t :: ts => t.refs ++ NTree.refsList ts
+end
+
+/-- every reference of the program in source order, with the block of the referencing statement -/
+def allRefs (ns : List NStmt) : List (Nat × Nat × Amount × Nat) :=
+  ns.flatMap fun s => s.tree.refs.map fun r => (r.1, r.2.1, r.2.2, s.block)
+
+/-- what the table must hold for the definition `d`: key, output index, sub recipe, defining block, references -/
+def tableEntry (roots : List Tree) (blocks : List Nat) (refs : List (Nat × Nat × Amount × Nat)) (d : SVS × Nat × Nat) :
+    SVS × Nat × Tree × Nat × List (Tree × Nat) :=
+  (d.1, d.2.2, roots[d.2.1]?.getD default, blocks[d.2.1]?.getD 0,
+   (refs.filter (fun r => r.1 == d.2.1 && r.2.1 == d.2.2)).map
+     fun r => (Tree.reference (roots[d.2.1]?.getD default) d.2.2 r.2.2.1, r.2.2.2))
+
+def view (o : NamedOutput) : SVS × Nat × Tree × Nat × List (Tree × Nat) := (o.key, o.idx, o.sub, o.defBlock, o.refs)
+
+
+-- ================================================================ proofs: structure of `definedNames`, `rootsOf`
+
+theorem mem_stmtDefs (sid : Nat) (d : SVS × Nat × Nat) : ∀ (names : List SVS) (i : Nat),
+    d ∈ stmtDefs sid i names ↔ d.2.1 = sid ∧ i ≤ d.2.2 ∧ (names[d.2.2 - i]?).map normaliseName = some d.1
+  | [], i => by simp [stmtDefs]
+  | n :: ns, i => by
+    obtain ⟨k, s, j⟩ := d
+    simp only [stmtDefs, List.mem_cons, mem_stmtDefs sid _ ns (i + 1)]
+    constructor
+    · rintro (h | ⟨h1, h2, h3⟩)
+      · cases h; simp
+      · refine ⟨h1, by omega, ?_⟩
+        have : j - i = (j - (i + 1)) + 1 := by omega
+        simpa [this] using h3
+    · rintro ⟨h1, h2, h3⟩
+      by_cases hj : j = i
+      · left; subst hj; subst h1; simp at h3; simp [h3]
+      · right
+        refine ⟨h1, by omega, ?_⟩
+        have : j - i = (j - (i + 1)) + 1 := by omega
+        simpa [this] using h3
+
+theorem mem_definedNamesFrom (d : SVS × Nat × Nat) : ∀ (done : List NStmt) (k : Nat),
+    d ∈ definedNamesFrom k done ↔
+      k ≤ d.2.1 ∧ ∃ s, done[d.2.1 - k]? = some s ∧ (s.names[d.2.2]?).map normaliseName = some d.1
+  | [], k => by simp [definedNamesFrom]
+  | s :: ss, k => by
+    simp only [definedNamesFrom, List.mem_append, mem_stmtDefs, mem_definedNamesFrom d ss (k + 1)]
+    constructor
+    · rintro (⟨h1, _, h3⟩ | ⟨h1, s', h2, h3⟩)
+      · exact ⟨by omega, s, by simp [h1], by simpa using h3⟩
+      · refine ⟨by omega, s', ?_, h3⟩
+        have : d.2.1 - k = (d.2.1 - (k + 1)) + 1 := by omega
+        simpa [this] using h2
+    · rintro ⟨h1, s', h2, h3⟩
+      by_cases hk : d.2.1 = k
+      · left
+        simp [hk] at h2
+        subst h2
+        exact ⟨hk, Nat.zero_le _, by simpa using h3⟩
+      · right
+        refine ⟨by omega, s', ?_, h3⟩
+        have : d.2.1 - k = (d.2.1 - (k + 1)) + 1 := by omega
+        simpa [this] using h2
+
+/-- `d` is a defined name iff statement `d.2.1` exists and its output `d.2.2` has the normalised name `d.1` -/
+theorem mem_definedNames (done : List NStmt) (d : SVS × Nat × Nat) :
+    d ∈ definedNames done ↔ ∃ s, done[d.2.1]? = some s ∧ (s.names[d.2.2]?).map normaliseName = some d.1 := by
+  simp [definedNames, mem_definedNamesFrom]
+
+theorem definedNames_sid_lt {done : List NStmt} {d : SVS × Nat × Nat} (h : d ∈ definedNames done) :
+    d.2.1 < done.length := by
+  obtain ⟨s, hs, _⟩ := (mem_definedNames done d).mp h
+  exact (List.getElem?_eq_some_iff.mp hs).1
+
+/-- a (statement id, output index) pair names one definition -/
+theorem definedNames_inj {done : List NStmt} {d d' : SVS × Nat × Nat} (h : d ∈ definedNames done)
+    (h' : d' ∈ definedNames done) (he : d.2 = d'.2) : d = d' := by
+  obtain ⟨s, hs, hn⟩ := (mem_definedNames done d).mp h
+  obtain ⟨s', hs', hn'⟩ := (mem_definedNames done d').mp h'
+  obtain ⟨k, i, j⟩ := d
+  obtain ⟨k', i', j'⟩ := d'
+  simp only [Prod.mk.injEq] at he
+  obtain ⟨rfl, rfl⟩ := he
+  simp only at hs hs' hn hn'
+  rw [hs] at hs'
+  cases hs'
+  rw [hn] at hn'
+  cases hn'
+  rfl
+
+theorem definedNamesFrom_append : ∀ (a b : List NStmt) (k : Nat),
+    definedNamesFrom k (a ++ b) = definedNamesFrom k a ++ definedNamesFrom (k + a.length) b
+  | [], b, k => by simp [definedNamesFrom]
+  | s :: a, b, k => by
+    simp only [List.cons_append, definedNamesFrom, definedNamesFrom_append a b (k + 1), List.append_assoc,
+      List.length_cons]
+    congr 3
+    omega
+
+theorem definedNames_snoc (done : List NStmt) (s : NStmt) :
+    definedNames (done ++ [s]) = definedNames done ++ stmtDefs done.length 0 s.names := by
+  simp [definedNames, definedNamesFrom_append, definedNamesFrom]
+
+theorem rootsOf_snoc (done : List NStmt) (s : NStmt) :
+    rootsOf (done ++ [s]) = rootsOf done ++ [embedStmt (rootsOf done) s] := by
+  simp [rootsOf, List.foldl_append]
+
+theorem rootsOf_length (done : List NStmt) : (rootsOf done).length = done.length := by
+  have : ∀ (ns : List NStmt) (acc : List Tree),
+      (ns.foldl (fun roots s => roots ++ [embedStmt roots s]) acc).length = acc.length + ns.length := by
+    intro ns
+    induction ns with
+    | nil => simp
+    | cons n ns ih => intro acc; simp [ih]; omega
+  simpa [rootsOf] using this done []
+
+theorem allRefs_snoc (done : List NStmt) (s : NStmt) :
+    allRefs (done ++ [s]) = allRefs done ++ s.tree.refs.map fun r => (r.1, r.2.1, r.2.2, s.block) := by
+  simp [allRefs]
+
+
+-- ================================================================ proofs: the simulation
+
+/-- no two defined names are the same name -/
+def KeysUnique (defs : List (SVS × Nat × Nat)) : Prop :=
+  ∀ d ∈ defs, ∀ d' ∈ defs, (d.1 == d'.1) = true → d = d'
+
+/-- compiler result `c` and specification result `s` agree: related values, or the same error at the same place -/
+def Sim {α β : Type} (block : Nat) (R : α → β → Prop) (c : Except StmtErr α) (s : Except SpecErr β) : Prop :=
+  match s with
+  | .ok b => ∃ a, c = .ok a ∧ R a b
+  | .error e => ∃ e', c = .error e' ∧ liftErr block e' = e.toCompile
+
+theorem Sim.bind {α β α' β' : Type} {block : Nat} {R : α → β → Prop} {R' : α' → β' → Prop}
+    {c : Except StmtErr α} {s : Except SpecErr β} {f : α → Except StmtErr α'} {g : β → Except SpecErr β'}
+    (h : Sim block R c s) (hf : ∀ a b, s = .ok b → R a b → Sim block R' (f a) (g b)) :
+    Sim block R' (c >>= f) (s >>= g) := by
+  cases s with
+  | error e => obtain ⟨e', hc, he⟩ := h; subst hc; exact ⟨e', rfl, he⟩
+  | ok b => obtain ⟨a, hc, hr⟩ := h; subst hc; exact hf a b rfl hr
+
+/-- the references of one statement's expression, tagged with the statement's block -/
+def tagRefs (block : Nat) (rs : List (Nat × Nat × Amount)) : List (Nat × Nat × Amount × Nat) :=
+  rs.map fun r => (r.1, r.2.1, r.2.2, block)
+
+/-- the table is the by-name table with references `refs` recorded so far -/
+def TableIs (roots : List Tree) (blocks : List Nat) (defs : List (SVS × Nat × Nat))
+    (refs : List (Nat × Nat × Amount × Nat)) (st : CState) : Prop :=
+  st.outputs.map view = defs.map (tableEntry roots blocks refs)
+
+theorem TableIs.find? {roots blocks defs refs st} (h : TableIs roots blocks defs refs st) (key : SVS) :
+    (st.find? key).map view = (defs.find? (fun d => d.1 == key)).map (tableEntry roots blocks refs) :=
+  find?_of_map_eq view (tableEntry roots blocks refs) (fun v => v.1 == key) st.outputs defs h
+
+theorem TableIs.isSome {roots blocks defs refs st} (h : TableIs roots blocks defs refs st) (key : SVS) :
+    (st.find? key).isSome = (defs.map (·.1)).any (· == key) := by
+  rw [CState.find?_isSome]
+  have := any_of_map_eq view (tableEntry roots blocks refs) (fun v => v.1 == key) st.outputs defs h
+  simp only [List.any_map, Function.comp_def]
+  exact this
+
+/-- recording one more reference to the definition `d` that `key` resolves to -/
+theorem TableIs.addRef {done roots blocks refs st} (hU : KeysUnique (definedNames done))
+    (h : TableIs roots blocks (definedNames done) refs st) (key : SVS) (d : SVS × Nat × Nat)
+    (hd : (definedNames done).find? (fun d => d.1 == key) = some d) (a : Amount) (block : Nat) :
+    TableIs roots blocks (definedNames done) (refs ++ [(d.2.1, d.2.2, a, block)])
+      { st with outputs := st.outputs.map fun o =>
+          if o.key == key then
+            { o with refs := o.refs ++ [(Tree.reference (roots[d.2.1]?.getD default) d.2.2 a, block)] }
+          else o } := by
+  have hdk : (d.1 == key) = true := by simpa using List.find?_some hd
+  have hdm : d ∈ definedNames done := List.mem_of_find?_eq_some hd
+  unfold TableIs at *
+  let updV : SVS × Nat × Tree × Nat × List (Tree × Nat) → SVS × Nat × Tree × Nat × List (Tree × Nat) := fun v =>
+    if v.1 == key then
+      (v.1, v.2.1, v.2.2.1, v.2.2.2.1, v.2.2.2.2 ++ [(Tree.reference (roots[d.2.1]?.getD default) d.2.2 a, block)])
+    else v
+  have h1 : ∀ o : NamedOutput, view (if o.key == key then
+            { o with refs := o.refs ++ [(Tree.reference (roots[d.2.1]?.getD default) d.2.2 a, block)] }
+          else o) = updV (view o) := by
+    intro o
+    simp only [updV, view]
+    split <;> rfl
+  simp only [List.map_map, Function.comp_def, h1]
+  have h2 : st.outputs.map (fun o => updV (view o)) = (st.outputs.map view).map updV := by
+    simp [List.map_map, Function.comp_def]
+  rw [h2, h, List.map_map]
+  apply List.map_congr_left
+  intro d' hd'
+  simp only [Function.comp_def, updV, tableEntry]
+  by_cases hk : (d'.1 == key) = true
+  · have : d' = d := by
+      apply hU d' hd' d hdm
+      exact Svs.beq_trans hk (by rw [Svs.beq_symm]; exact hdk)
+    subst this
+    simp [hk, List.filter_append]
+  · have hne : ¬ (d.2.1 = d'.2.1 ∧ d.2.2 = d'.2.2) := by
+      rintro ⟨e1, e2⟩
+      have : d = d' := definedNames_inj hdm hd' (Prod.ext e1 e2)
+      subst this
+      exact hk hdk
+    simp only [hk]
+    simp only [Bool.false_eq_true, if_false, List.filter_append, Prod.mk.injEq, true_and]
+    have : (List.filter (fun r : Nat × Nat × Amount × Nat => r.1 == d'.2.1 && r.2.1 == d'.2.2)
+        [(d.2.1, d.2.2, a, block)]) = [] := by
+      simp only [List.filter_cons, List.filter_nil]
+      split
+      · rename_i hc
+        simp only [Bool.and_eq_true, beq_iff_eq] at hc
+        exact absurd hc hne
+      · rfl
+    rw [this, List.append_nil]
+
+def ExprRel (roots : List Tree) (blocks : List Nat) (done : List NStmt) (refs : List (Nat × Nat × Amount × Nat))
+    (block : Nat) (p : Tree × CState) (nt : NTree) : Prop :=
+  p.1 = embedTree roots nt ∧ TableIs roots blocks (definedNames done) (refs ++ tagRefs block nt.refs) p.2
+
+def ExprsRel (roots : List Tree) (blocks : List Nat) (done : List NStmt) (refs : List (Nat × Nat × Amount × Nat))
+    (block : Nat) (p : List Tree × CState) (nts : List NTree) : Prop :=
+  p.1 = embedTrees roots nts ∧ TableIs roots blocks (definedNames done) (refs ++ tagRefs block (NTree.refsList nts)) p.2
+
+theorem leaf_sim {done roots blocks block} (hU : KeysUnique (definedNames done)) (name : AString)
+    (amount : Option AAmount) (st : CState) (refs : List (Nat × Nat × Amount × Nat))
+    (hT : TableIs roots blocks (definedNames done) refs st) :
+    Sim block (ExprRel roots blocks done refs block) (compileExpr block st (.ref name amount))
+      (Spec.leaf done block name amount) := by
+  have hf := hT.find? (normaliseName (compileString name))
+  unfold Spec.leaf lookup
+  simp only [compileExpr]
+  cases hd : (definedNames done).find? (fun d => d.1 == normaliseName (compileString name)) with
+  | none =>
+    rw [hd] at hf
+    have hn : st.find? (normaliseName (compileString name)) = none := by simpa using hf
+    simp only [hn, Option.map_none]
+    cases amount with
+    | none => exact ⟨_, rfl, rfl, by simpa [tagRefs, NTree.refs] using hT⟩
+    | some am =>
+      cases am with
+      | qty o v u sp p => exact ⟨_, rfl, rfl, by simpa [tagRefs, NTree.refs] using hT⟩
+      | prop off v pc w p => exact ⟨_, rfl, rfl⟩
+  | some d =>
+    rw [hd] at hf
+    cases ho : st.find? (normaliseName (compileString name)) with
+    | none => rw [ho] at hf; simp at hf
+    | some out =>
+      rw [ho] at hf
+      simp only [Option.map_some, Option.some.injEq] at hf
+      have hsub : out.sub = roots[d.2.1]?.getD default := by
+        have := congrArg (fun v => v.2.2.1) hf; simpa [view, tableEntry] using this
+      have hidx : out.idx = d.2.2 := by
+        have := congrArg (fun v => v.2.1) hf; simpa [view, tableEntry] using this
+      simp only [Option.map_some]
+      refine ⟨_, rfl, ?_, ?_⟩
+      · simp [embedTree, hsub, hidx]
+      · have := TableIs.addRef hU hT _ d hd (compileAmount amount) block
+        simpa [tagRefs, NTree.refs, hsub, hidx] using this
+
+mutual
+theorem expr_sim {done roots blocks block} (hU : KeysUnique (definedNames done)) :
+    ∀ (e : AExpr) (st : CState) (refs : List (Nat × Nat × Amount × Nat)),
+      TableIs roots blocks (definedNames done) refs st →
+      Sim block (ExprRel roots blocks done refs block) (compileExpr block st e) (Spec.expr done block e)
+  | .ref name amount, st, refs, hT => by
+    rw [Spec.expr]; exact leaf_sim hU name amount st refs hT
+  | .step name inputs, st, refs, hT => by
+    rw [compileExpr, Spec.expr]
+    refine Sim.bind (exprs_sim hU inputs st refs hT) ?_
+    rintro ⟨ts, st'⟩ nts _ ⟨h1, h2⟩
+    exact ⟨_, rfl, by simp only [embedTree]; rw [← h1], by simpa [NTree.refs] using h2⟩
+theorem exprs_sim {done roots blocks block} (hU : KeysUnique (definedNames done)) :
+    ∀ (es : List AExpr) (st : CState) (refs : List (Nat × Nat × Amount × Nat)),
+      TableIs roots blocks (definedNames done) refs st →
+      Sim block (ExprsRel roots blocks done refs block) (compileExprs block st es) (Spec.exprs done block es)
+  | [], st, refs, hT => by
+    rw [compileExprs, Spec.exprs]
+    exact ⟨_, rfl, rfl, by simpa [tagRefs, NTree.refsList] using hT⟩
+  | e :: es, st, refs, hT => by
+    rw [compileExprs, Spec.exprs]
+    refine Sim.bind (expr_sim hU e st refs hT) ?_
+    rintro ⟨t, st1⟩ nt _ ⟨h1, h2⟩
+    refine Sim.bind (exprs_sim hU es st1 _ h2) ?_
+    rintro ⟨ts, st2⟩ nts _ ⟨h3, h4⟩
+    refine ⟨_, rfl, ?_, ?_⟩
+    · simp only [embedTrees]; rw [← h1, ← h3]
+    · simpa [tagRefs, NTree.refsList, List.append_assoc] using h4
+end
+
+
+-- ---------------------------------------------------------------- facts about the specification alone
+
+theorem Spec.leaf_def (done : List NStmt) (block : Nat) (name : AString) (amount : Option AAmount) :
+    Spec.leaf done block name amount =
+      match lookup done (normaliseName (compileString name)) with
+      | some (sid, idx) => .ok (.nref sid idx (compileAmount amount))
+      | none =>
+        match amount with
+        | some (.prop off ..) => .error (.proportion block off)
+        | some (.qty _ v u sp p) => .ok (.ingredient (compileString name) (some (compileQuantity v u sp p)))
+        | none => .ok (.ingredient (compileString name) none) := rfl
+
+theorem lookup_some {done : List NStmt} {key : SVS} {sid idx : Nat} (h : lookup done key = some (sid, idx)) :
+    ∃ d ∈ definedNames done, (d.1 == key) = true ∧ d.2 = (sid, idx) ∧
+      (definedNames done).find? (fun d => d.1 == key) = some d := by
+  unfold lookup at h
+  cases hd : (definedNames done).find? (fun d => d.1 == key) with
+  | none => rw [hd] at h; cases h
+  | some d =>
+    rw [hd] at h
+    exact ⟨d, List.mem_of_find?_eq_some hd, by simpa using List.find?_some hd, by simpa using h, rfl⟩
+
+theorem lookup_none {done : List NStmt} {key : SVS} :
+    lookup done key = none ↔ ((definedNames done).map (·.1)).any (· == key) = false := by
+  unfold lookup
+  simp only [Option.map_eq_none_iff, List.find?_eq_none, List.any_map, List.any_eq_false, Function.comp_def]
+
+mutual
+/-- references point to earlier statements -/
+theorem refs_scoped {done : List NStmt} {block : Nat} : ∀ (e : AExpr) (nt : NTree),
+    Spec.expr done block e = .ok nt → ∀ r ∈ nt.refs, r.1 < done.length
+  | .ref name amount, nt, h => by
+    rw [Spec.expr, Spec.leaf_def] at h
+    cases hl : lookup done (normaliseName (compileString name)) with
+    | some p =>
+      obtain ⟨sid, idx⟩ := p
+      rw [hl] at h
+      simp only [Except.ok.injEq] at h
+      subst h
+      obtain ⟨d, hd, _, he, _⟩ := lookup_some hl
+      intro r hr
+      simp only [NTree.refs, List.mem_singleton] at hr
+      subst hr
+      have := definedNames_sid_lt hd
+      rw [he] at this
+      exact this
+    | none =>
+      rw [hl] at h
+      cases amount with
+      | none => simp only [Except.ok.injEq] at h; subst h; simp [NTree.refs]
+      | some am =>
+        cases am with
+        | qty o v u sp p => simp only [Except.ok.injEq] at h; subst h; simp [NTree.refs]
+        | prop off v pc w p => cases h
+  | .step name inputs, nt, h => by
+    rw [Spec.expr] at h
+    cases hs : Spec.exprs done block inputs with
+    | error e => rw [hs] at h; cases h
+    | ok ts =>
+      rw [hs] at h
+      have : nt = .step (compileString name) ts := by cases h; rfl
+      subst this
+      simpa [NTree.refs] using refsList_scoped inputs ts hs
+theorem refsList_scoped {done : List NStmt} {block : Nat} : ∀ (es : List AExpr) (nts : List NTree),
+    Spec.exprs done block es = .ok nts → ∀ r ∈ NTree.refsList nts, r.1 < done.length
+  | [], nts, h => by
+    rw [Spec.exprs] at h
+    cases h
+    simp [NTree.refsList]
+  | e :: es, nts, h => by
+    rw [Spec.exprs] at h
+    cases h1 : Spec.expr done block e with
+    | error x => rw [h1] at h; cases h
+    | ok t =>
+      rw [h1] at h
+      cases h2 : Spec.exprs done block es with
+      | error x => rw [h2] at h; cases h
+      | ok ts =>
+        rw [h2] at h
+        have : nts = t :: ts := by cases h; rfl
+        subst this
+        intro r hr
+        simp only [NTree.refsList, List.mem_append] at hr
+        cases hr with
+        | inl hr => exact refs_scoped e t h1 r hr
+        | inr hr => exact refsList_scoped es ts h2 r hr
+end
+
+mutual
+/-- an inferred name is the name of an ingredient, hence not a defined name -/
+theorem inferName_fresh {done : List NStmt} {block : Nat} : ∀ (e : AExpr) (nt : NTree) (n : SVS),
+    Spec.expr done block e = .ok nt → nt.inferName = some n → lookup done (normaliseName n) = none
+  | .ref name amount, nt, n, h, hn => by
+    rw [Spec.expr, Spec.leaf_def] at h
+    cases hl : lookup done (normaliseName (compileString name)) with
+    | some p =>
+      rw [hl] at h
+      simp only [Except.ok.injEq] at h
+      subst h
+      simp [NTree.inferName] at hn
+    | none =>
+      rw [hl] at h
+      cases amount with
+      | none =>
+        simp only [Except.ok.injEq] at h; subst h
+        simp only [NTree.inferName, Option.some.injEq] at hn
+        subst hn; exact hl
+      | some am =>
+        cases am with
+        | qty o v u sp p =>
+          simp only [Except.ok.injEq] at h; subst h
+          simp only [NTree.inferName, Option.some.injEq] at hn
+          subst hn; exact hl
+        | prop off v pc w p => cases h
+  | .step name inputs, nt, n, h, hn => by
+    rw [Spec.expr] at h
+    cases hs : Spec.exprs done block inputs with
+    | error e => rw [hs] at h; cases h
+    | ok ts =>
+      rw [hs] at h
+      have : nt = .step (compileString name) ts := by cases h; rfl
+      subst this
+      match ts, hs, hn with
+      | [i], hs, hn =>
+        simp only [NTree.inferName] at hn
+        exact inferNames_fresh inputs i n hs hn
+      | [], _, hn => simp [NTree.inferName] at hn
+      | _ :: _ :: _, _, hn => simp [NTree.inferName] at hn
+theorem inferNames_fresh {done : List NStmt} {block : Nat} : ∀ (es : List AExpr) (i : NTree) (n : SVS),
+    Spec.exprs done block es = .ok [i] → i.inferName = some n → lookup done (normaliseName n) = none
+  | [], i, n, h, _ => by rw [Spec.exprs] at h; cases h
+  | e :: es, i, n, h, hn => by
+    rw [Spec.exprs] at h
+    cases h1 : Spec.expr done block e with
+    | error x => rw [h1] at h; cases h
+    | ok t =>
+      rw [h1] at h
+      cases h2 : Spec.exprs done block es with
+      | error x => rw [h2] at h; cases h
+      | ok ts =>
+        rw [h2] at h
+        have : [i] = t :: ts := by cases h; rfl
+        cases this
+        exact inferName_fresh e i n h1 hn
+end
+
+theorem inferOutputName_embed (roots : List Tree) : ∀ nt : NTree, inferOutputName (embedTree roots nt) = nt.inferName
+  | .ingredient d q => by simp [embedTree, inferOutputName, NTree.inferName]
+  | .nref .. => by simp [embedTree, inferOutputName, NTree.inferName]
+  | .step d [] => by simp [embedTree, embedTrees, inferOutputName, NTree.inferName]
+  | .step d [i] => by
+    simp [embedTree, embedTrees, inferOutputName, NTree.inferName, inferOutputName_embed roots i]
+  | .step d (a :: b :: c) => by simp [embedTree, embedTrees, inferOutputName, NTree.inferName]
+
+theorem KeysUnique.snoc {L : List (SVS × Nat × Nat)} (hU : KeysUnique L) (d : SVS × Nat × Nat)
+    (hf : (L.map (·.1)).any (· == d.1) = false) : KeysUnique (L ++ [d]) := by
+  have hf' : ∀ x ∈ L, (x.1 == d.1) = false := by
+    intro x hx
+    simp only [List.any_map, List.any_eq_false, Function.comp_def] at hf
+    simpa using hf x hx
+  intro a ha b hb hab
+  simp only [List.mem_append, List.mem_singleton] at ha hb
+  rcases ha with ha | ha <;> rcases hb with hb | hb
+  · exact hU a ha b hb hab
+  · subst hb; rw [hf' a ha] at hab; cases hab
+  · subst ha; rw [Svs.beq_symm, hf' b hb] at hab; cases hab
+  · rw [ha, hb]
+
+theorem checkNames_unique (block sid : Nat) : ∀ (rest : List AString) (i : Nat) (L : List (SVS × Nat × Nat)),
+    Spec.checkNames block (L.map (·.1)) rest = .ok () → KeysUnique L →
+    KeysUnique (L ++ stmtDefs sid i (rest.map compileString))
+  | [], i, L, _, hU => by simpa [stmtDefs] using hU
+  | a :: rest, i, L, h, hU => by
+    rw [Spec.checkNames] at h
+    split at h
+    · cases h
+    · rename_i hf
+      have hf' : (L.map (·.1)).any (· == normaliseName (compileString a)) = false := by simpa using hf
+      have := checkNames_unique block sid rest (i + 1) (L ++ [(normaliseName (compileString a), sid, i)])
+        (by simpa using h) (hU.snoc _ hf')
+      simpa [stmtDefs, List.append_assoc] using this
+
+
+-- ---------------------------------------------------------------- statements
+
+theorem TableIs.rebase {roots blocks defs refs st} (h : TableIs roots blocks defs refs st) (x : List Tree)
+    (y : List Nat) (hr : ∀ d ∈ defs, d.2.1 < roots.length) (hb : blocks.length = roots.length) :
+    TableIs (roots ++ x) (blocks ++ y) defs refs st := by
+  unfold TableIs at *
+  rw [h]
+  apply List.map_congr_left
+  intro d hd
+  have h1 : (roots ++ x)[d.2.1]? = roots[d.2.1]? := List.getElem?_append_left (hr d hd)
+  have h2 : (blocks ++ y)[d.2.1]? = blocks[d.2.1]? := List.getElem?_append_left (hb ▸ hr d hd)
+  simp only [tableEntry, h1, h2]
+
+theorem TableIs.snoc {roots blocks L refs st} (h : TableIs roots blocks L refs st) (o : NamedOutput)
+    (d : SVS × Nat × Nat) (ho : view o = tableEntry roots blocks refs d) :
+    TableIs roots blocks (L ++ [d]) refs { st with outputs := st.outputs ++ [o] } := by
+  unfold TableIs at *
+  simp [h, ho]
+
+theorem drop_cons_getElem? {α : Type} {l : List α} {i : Nat} {a : α} {rest : List α} (h : l.drop i = a :: rest) :
+    l[i]? = some a ∧ l.drop (i + 1) = rest := by
+  constructor
+  · have := List.getElem?_drop (xs := l) (i := i) (j := 0)
+    rw [h] at this
+    simpa using this.symm
+  · have : l.drop (i + 1) = (l.drop i).drop 1 := by rw [List.drop_drop]
+    rw [this, h]; rfl
+
+theorem register_sim {roots blocks refs block sub unwrap sid} (l : List AString)
+    (hE : ∀ k j, tableEntry roots blocks refs (k, sid, j) = (k, j, sub, block, [])) :
+    ∀ (rest : List AString) (i : Nat) (st : CState) (L : List (SVS × Nat × Nat)),
+      l.drop i = rest → TableIs roots blocks L refs st →
+      Sim block (fun st' _ => TableIs roots blocks (L ++ stmtDefs sid i (rest.map compileString)) refs st')
+        (registerOutputs block sub unwrap (some l) st i (rest.map compileString))
+        (Spec.checkNames block (L.map (·.1)) rest)
+  | [], i, st, L, _, hT => by
+    rw [Spec.checkNames]
+    exact ⟨st, by simp [registerOutputs], by simpa [stmtDefs] using hT⟩
+  | a :: rest, i, st, L, hl, hT => by
+    obtain ⟨hla, hlr⟩ := drop_cons_getElem? hl
+    have hs := hT.isSome (normaliseName (compileString a))
+    rw [Spec.checkNames]
+    simp only [List.map_cons]
+    cases hany : (L.map (·.1)).any (· == normaliseName (compileString a)) with
+    | true =>
+      rw [hany] at hs
+      simp only [if_true]
+      exact ⟨_, registerOutputs_dup block sub unwrap l a st i _ _ hs hla, rfl⟩
+    | false =>
+      rw [hany] at hs
+      simp only [Bool.false_eq_true, if_false]
+      rw [registerOutputs_fresh block sub unwrap (some l) st i _ _ hs]
+      have hT' := hT.snoc { key := normaliseName (compileString a), name := compileString a, defBlock := block, sub := sub,
+                            idx := i, refs := [], unwrap := unwrap } (normaliseName (compileString a), sid, i)
+                    (by rw [hE]; rfl)
+      have := register_sim (unwrap := unwrap) l hE rest (i + 1) _ _ hlr hT'
+      simpa [stmtDefs, List.append_assoc] using this
+
+/-- the compiler state after the statements `done` -/
+structure Inv (st : CState) (done : List NStmt) : Prop where
+  table : TableIs (rootsOf done) (done.map (·.block)) (definedNames done) (allRefs done) st
+  uniq : KeysUnique (definedNames done)
+  inScope : ∀ r ∈ allRefs done, r.1 < done.length
+
+theorem Inv.init : Inv {} [] :=
+  ⟨rfl, by intro d hd; simp [definedNames, definedNamesFrom] at hd, by intro r hr; simp [allRefs] at hr⟩
+
+/-- what is common to the three ways of naming a statement whose expression has been elaborated -/
+theorem stmt_key {st st1 : CState} {done : List NStmt} {block : Nat} {nt : NTree} (hI : Inv st done)
+    (hT1 : TableIs (rootsOf done) (done.map (·.block)) (definedNames done) (allRefs done ++ tagRefs block nt.refs) st1)
+    (hsc : ∀ r ∈ nt.refs, r.1 < done.length) (names : List SVS) (sh : Bool) :
+    let ns : NStmt := { block := block, tree := nt, names := names, showNames := sh }
+    TableIs (rootsOf (done ++ [ns])) ((done ++ [ns]).map (·.block)) (definedNames done) (allRefs (done ++ [ns])) st1 ∧
+    (∀ r ∈ allRefs (done ++ [ns]), r.1 < (done ++ [ns]).length) ∧
+    (∀ k j, tableEntry (rootsOf (done ++ [ns])) ((done ++ [ns]).map (·.block)) (allRefs (done ++ [ns]))
+        (k, done.length, j) = (k, j, embedStmt (rootsOf done) ns, block, [])) := by
+  intro ns
+  have hsc' : ∀ r ∈ allRefs (done ++ [ns]), r.1 < done.length := by
+    intro r hr
+    rw [allRefs_snoc, List.mem_append] at hr
+    cases hr with
+    | inl hr => exact hI.inScope r hr
+    | inr hr =>
+      simp only [List.mem_map] at hr
+      obtain ⟨r', hr', rfl⟩ := hr
+      exact hsc r' hr'
+  refine ⟨?_, ?_, ?_⟩
+  · rw [rootsOf_snoc, List.map_append, allRefs_snoc]
+    exact hT1.rebase _ _ (fun d hd => by rw [rootsOf_length]; exact definedNames_sid_lt hd)
+      (by rw [rootsOf_length, List.length_map])
+  · intro r hr
+    have := hsc' r hr
+    simp only [List.length_append, List.length_singleton]
+    omega
+  · intro k j
+    have h1 : (rootsOf (done ++ [ns]))[done.length]? = some (embedStmt (rootsOf done) ns) := by
+      rw [rootsOf_snoc, List.getElem?_append_right (by rw [rootsOf_length]; exact Nat.le_refl _), rootsOf_length]
+      simp
+    have h2 : ((done ++ [ns]).map (·.block))[done.length]? = some block := by
+      rw [List.map_append, List.getElem?_append_right (by simp)]
+      simp [ns]
+    have h3 : (allRefs (done ++ [ns])).filter (fun r => r.1 == done.length && r.2.1 == j) = [] := by
+      rw [List.filter_eq_nil_iff]
+      intro r hr
+      have := hsc' r hr
+      simp only [Bool.and_eq_true, beq_iff_eq]
+      omega
+    simp only [tableEntry, h1, h2, h3, Option.getD_some, List.map_nil]
+
+/-- the statement relation: the tree is the embedded statement, and the invariant holds one statement later -/
+def StmtRel (done : List NStmt) (block : Nat) (p : Tree × CState) (ns : NStmt) : Prop :=
+  p.1 = embedStmt (rootsOf done) ns ∧ Inv p.2 (done ++ [ns]) ∧ ns.block = block
+
+/-- a statement without written names -/
+theorem infer_sim {st st1 : CState} {done : List NStmt} {block : Nat} {nt : NTree} (hI : Inv st done)
+    (hT1 : TableIs (rootsOf done) (done.map (·.block)) (definedNames done) (allRefs done ++ tagRefs block nt.refs) st1)
+    (hsc : ∀ r ∈ nt.refs, r.1 < done.length)
+    (hfresh : ∀ n, nt.inferName = some n → lookup done (normaliseName n) = none)
+    (asts : Option (List AString)) (unwrap : Bool) :
+    Sim block (StmtRel done block)
+      (match inferOutputName (embedTree (rootsOf done) nt) with
+       | some n =>
+         (registerOutputs block (.sub (embedTree (rootsOf done) nt) [n] false) unwrap asts st1 0 [n]) >>= fun st2 =>
+           .ok (.sub (embedTree (rootsOf done) nt) [n] false, st2)
+       | none => .ok (embedTree (rootsOf done) nt, st1))
+      (match nt.inferName with
+       | some n => pure { block := block, tree := nt, names := [n], showNames := false }
+       | none => pure { block := block, tree := nt, names := [], showNames := false }) := by
+  rw [inferOutputName_embed]
+  cases hn : nt.inferName with
+  | none =>
+    obtain ⟨k1, k2, _⟩ := stmt_key hI hT1 hsc [] false
+    refine ⟨_, rfl, rfl, ⟨?_, ?_, k2⟩, rfl⟩
+    · rw [definedNames_snoc]; simpa [stmtDefs] using k1
+    · rw [definedNames_snoc]; simpa [stmtDefs] using hI.uniq
+  | some n =>
+    obtain ⟨k1, k2, k3⟩ := stmt_key hI hT1 hsc [n] false
+    have hl := lookup_none.mp (hfresh n hn)
+    have hs : (st1.find? (normaliseName n)).isSome = false := by rw [k1.isSome]; exact hl
+    simp only []
+    rw [registerOutputs_fresh block _ unwrap asts st1 0 n [] hs]
+    have hT' := k1.snoc { key := normaliseName n, name := n, defBlock := block,
+                          sub := .sub (embedTree (rootsOf done) nt) [n] false, idx := 0, refs := [], unwrap := unwrap }
+                  (normaliseName n, done.length, 0) (by rw [k3]; rfl)
+    refine ⟨_, by simp only [registerOutputs, Except.ok_bind]; rfl, rfl, ⟨?_, ?_, k2⟩, rfl⟩
+    · rw [definedNames_snoc]; simpa [stmtDefs] using hT'
+    · rw [definedNames_snoc]
+      simpa [stmtDefs] using hI.uniq.snoc (normaliseName n, done.length, 0) hl
+
+theorem stmt_sim {st : CState} {done : List NStmt} {block : Nat} (hI : Inv st done) (s : AStmt) :
+    Sim block (StmtRel done block) (compileStmt block st s) (Spec.stmt done block s) := by
+  obtain ⟨e, outs, named⟩ := s
+  have hx := expr_sim (roots := rootsOf done) (blocks := done.map (·.block)) (block := block) hI.uniq e st _ hI.table
+  rw [compileStmt_eq]
+  unfold Spec.stmt
+  refine Sim.bind hx ?_
+  rintro ⟨tree, st1⟩ nt hs ⟨htree, hT1⟩
+  simp only at htree hT1 ⊢
+  subst htree
+  have hsc := refs_scoped e nt hs
+  match outs with
+  | some (o :: os) =>
+    obtain ⟨k1, k2, k3⟩ := stmt_key hI hT1 hsc ((o :: os).map compileString) true
+    have hr := register_sim (unwrap := !named) (o :: os) k3 (o :: os) 0 st1 (definedNames done) rfl k1
+    have hne : ((o :: os).map compileString).isEmpty = false := rfl
+    simp only [embedStmt, hne, Bool.false_eq_true, if_false] at hr
+    simp only [nameStmt]
+    refine Sim.bind hr ?_
+    intro st' u hck hT'
+    refine ⟨_, rfl, ?_, ⟨?_, ?_, k2⟩, rfl⟩
+    · simp only [embedStmt, hne, Bool.false_eq_true, if_false]
+    · rw [definedNames_snoc]; exact hT'
+    · rw [definedNames_snoc]
+      exact checkNames_unique block done.length (o :: os) 0 _ hck hI.uniq
+  | some [] => exact infer_sim hI hT1 hsc (fun n hn => inferName_fresh e nt n hs hn) (some []) (!named)
+  | none => exact infer_sim hI hT1 hsc (fun n hn => inferName_fresh e nt n hs hn) none (!named)
+
+
+-- ---------------------------------------------------------------- blocks
+
+theorem Sim.mapLeft {α β α' : Type} {block : Nat} {R : α → β → Prop} {R' : α' → β → Prop}
+    {c : Except StmtErr α} {s : Except SpecErr β} {f : α → Except StmtErr α'}
+    (h : Sim block R c s) (hf : ∀ a b, R a b → ∃ a', f a = .ok a' ∧ R' a' b) :
+    Sim block R' (c >>= f) s := by
+  cases s with
+  | error e => obtain ⟨e', hc, he⟩ := h; subst hc; exact ⟨e', rfl, he⟩
+  | ok b =>
+    obtain ⟨a, hc, hr⟩ := h; subst hc
+    obtain ⟨a', ha, hr'⟩ := hf a b hr
+    exact ⟨a', by rw [Except.ok_bind, ha], hr'⟩
+
+/-- after the statements of one block: new statements `new`, all of this block, whose root trees are the output -/
+def StmtsRel (done : List NStmt) (block : Nat) (p : List Tree × CState) (done' : List NStmt) : Prop :=
+  ∃ new, done' = done ++ new ∧ rootsOf done' = rootsOf done ++ p.1 ∧ Inv p.2 done' ∧ ∀ s ∈ new, s.block = block
+
+theorem stmts_sim {block : Nat} : ∀ (ss : List AStmt) (st : CState) (done : List NStmt), Inv st done →
+    Sim block (StmtsRel done block) (compileStmts block st ss) (Spec.stmts block done ss)
+  | [], st, done, hI => by
+    rw [compileStmts, Spec.stmts]
+    exact ⟨_, rfl, [], by simp, by simp, hI, by simp⟩
+  | s :: ss, st, done, hI => by
+    rw [compileStmts, Spec.stmts]
+    refine Sim.bind (stmt_sim hI s) ?_
+    rintro ⟨t, st1⟩ ns _ ⟨ht, hI1, hb⟩
+    refine Sim.mapLeft (stmts_sim ss st1 (done ++ [ns]) hI1) ?_
+    rintro ⟨ts, st2⟩ done' ⟨new, hd, hr, hI2, hbs⟩
+    refine ⟨_, rfl, ns :: new, by simp [hd], ?_, hI2, ?_⟩
+    · simp only at hr ht ⊢
+      rw [hr, rootsOf_snoc, ← ht]; simp
+    · intro x hx
+      simp only [List.mem_cons] at hx
+      cases hx with
+      | inl hx => rw [hx]; exact hb
+      | inr hx => exact hbs x hx
+
+/-- the root trees of the statements of block `b` -/
+def groupBlock (b : Nat) (ps : List (NStmt × Tree)) : List Tree := (ps.filter (fun p => p.1.block == b)).map (·.2)
+
+theorem groupBlock_all (b : Nat) : ∀ (ns : List NStmt) (ts : List Tree), ns.length = ts.length →
+    (∀ s ∈ ns, s.block = b) → groupBlock b (ns.zip ts) = ts
+  | [], [], _, _ => rfl
+  | [], _ :: _, h, _ => by cases h
+  | _ :: _, [], h, _ => by cases h
+  | n :: ns, t :: ts, h, hb => by
+    have h1 : n.block = b := hb n (by simp)
+    have := groupBlock_all b ns ts (by simpa using h) (fun s hs => hb s (by simp [hs]))
+    simp only [groupBlock] at this ⊢
+    simp [List.zip_cons_cons, h1, this]
+
+theorem groupBlock_none (b : Nat) : ∀ (ns : List NStmt) (ts : List Tree),
+    (∀ s ∈ ns, s.block ≠ b) → groupBlock b (ns.zip ts) = []
+  | [], _, _ => by simp [groupBlock]
+  | _ :: _, [], _ => by simp [groupBlock]
+  | n :: ns, t :: ts, hb => by
+    have h1 : n.block ≠ b := hb n (by simp)
+    have := groupBlock_none b ns ts (fun s hs => hb s (by simp [hs]))
+    simp only [groupBlock] at this ⊢
+    simp [List.zip_cons_cons, h1, this]
+
+theorem groupBlock_append (b : Nat) (p q : List (NStmt × Tree)) :
+    groupBlock b (p ++ q) = groupBlock b p ++ groupBlock b q := by
+  simp [groupBlock]
+
+theorem blocks_sim : ∀ (bs : List (List AStmt)) (i : Nat) (st : CState) (done : List NStmt), Inv st done →
+    match Spec.blocksFrom i done bs with
+    | .ok done' => ∃ out st' new, compileBlocks i st bs = .ok (out, st') ∧ done' = done ++ new ∧
+        rootsOf done' = rootsOf done ++ out.flatten ∧ Inv st' done' ∧ (∀ s ∈ new, i ≤ s.block) ∧
+        out = (List.range' i bs.length).map (fun b => groupBlock b (new.zip out.flatten))
+    | .error e => compileBlocks i st bs = .error e.toCompile
+  | [], i, st, done, hI => by
+    rw [Spec.blocksFrom]
+    exact ⟨[], st, [], by rw [compileBlocks], by simp, by simp, hI, by simp, by simp⟩
+  | b :: bs, i, st, done, hI => by
+    rw [Spec.blocksFrom, compileBlocks_cons]
+    have h := stmts_sim (block := i) b st done hI
+    cases hs : Spec.stmts i done b with
+    | error e =>
+      rw [hs] at h
+      obtain ⟨e', hc, he⟩ := h
+      rw [hc]
+      simp only [Except.error_bind]
+      rw [he]
+    | ok done1 =>
+      rw [hs] at h
+      obtain ⟨⟨ts, st1⟩, hc, new1, hd1, hr1, hI1, hb1⟩ := h
+      rw [hc]
+      simp only [Except.ok_bind]
+      have ih := blocks_sim bs (i + 1) st1 done1 hI1
+      cases hs2 : Spec.blocksFrom (i + 1) done1 bs with
+      | error e =>
+        rw [hs2] at ih
+        simp only [ih]
+      | ok done' =>
+        rw [hs2] at ih
+        obtain ⟨out2, st', new2, hc2, hd2, hr2, hI2, hb2, hg⟩ := ih
+        simp only [hc2]
+        have hlen : new1.length = ts.length := by
+          have := congrArg List.length hr1
+          simp only [rootsOf_length, List.length_append] at this
+          rw [hd1, List.length_append] at this
+          omega
+        refine ⟨ts :: out2, st', new1 ++ new2, rfl, by rw [hd2, hd1, List.append_assoc], ?_, hI2, ?_, ?_⟩
+        · simp only at hr1
+          rw [hr2, hr1, List.flatten_cons, List.append_assoc]
+        · intro s hs
+          rw [List.mem_append] at hs
+          cases hs with
+          | inl hs => rw [hb1 s hs]; exact Nat.le_refl _
+          | inr hs => have := hb2 s hs; omega
+        · rw [List.length_cons, List.range'_succ, List.map_cons, List.flatten_cons, List.zip_append hlen,
+            groupBlock_append, groupBlock_all i new1 ts hlen hb1,
+            groupBlock_none i new2 _ (fun s hs => by have := hb2 s hs; omega), List.append_nil]
+          congr 1
+          rw [hg]
+          apply List.map_congr_left
+          intro b' hb'
+          have hb'' : i + 1 ≤ b' := (List.mem_range'_1.mp hb').1
+          rw [← hg, groupBlock_append, groupBlock_none b' new1 ts (fun s hs => by rw [hb1 s hs]; omega),
+            List.nil_append]
+
+
+-- ================================================================ C01.3 the refinement theorems
+
+/-- everything the simulation gives for a whole program -/
+theorem elab_sim (asts : List (List AStmt)) :
+    match Spec.blocks asts with
+    | .ok ns => ∃ st, compileBlocks 0 {} asts = .ok (embed asts.length ns, st) ∧ Inv st ns ∧
+        (embed asts.length ns).flatten = rootsOf ns
+    | .error e => compileBlocks 0 {} asts = .error e.toCompile := by
+  have h := blocks_sim asts 0 {} [] Inv.init
+  unfold Spec.blocks
+  cases hs : Spec.blocksFrom 0 [] asts with
+  | error e => rw [hs] at h; exact h
+  | ok ns =>
+    rw [hs] at h
+    obtain ⟨out, st, new, hc, hd, hr, hI, _, hg⟩ := h
+    simp only [List.nil_append] at hd
+    subst hd
+    have hr' : rootsOf ns = out.flatten := by simpa [rootsOf] using hr
+    have he : embed asts.length ns = out := by
+      conv => rhs; rw [hg]
+      simp only [embed, List.range_eq_range', hr', groupBlock]
+    exact ⟨st, by rw [he]; exact hc, hI, by rw [he, hr']⟩
+
+/-- **C01.3** the compiler's elaboration is exactly the by-name meaning with copies embedded: the same trees, or the
+    same error at the same position.  As `SpecErr.toCompile` only produces `redefined` and `proportion`, nothing else
+    is rejected and no other exception (`syntaxError`, `zeroDivision`, `internal`) can come out of elaboration. -/
+theorem elab_refines_spec (asts : List (List AStmt)) :
+    (compileBlocks 0 {} asts).map (·.1) =
+      ((Spec.blocks asts).map (embed asts.length)).mapError SpecErr.toCompile := by
+  have h := elab_sim asts
+  cases hs : Spec.blocks asts with
+  | error e => rw [hs] at h; rw [h]; rfl
+  | ok ns => rw [hs] at h; obtain ⟨st, hc, _⟩ := h; rw [hc]; rfl
+
+/-- success: the compiler accepts iff the by-name meaning exists, and then returns its embedding -/
+theorem elab_ok_iff (asts : List (List AStmt)) (bs : List Block) :
+    (∃ st, compileBlocks 0 {} asts = .ok (bs, st)) ↔ ∃ ns, Spec.blocks asts = .ok ns ∧ bs = embed asts.length ns := by
+  have h := elab_sim asts
+  cases hs : Spec.blocks asts with
+  | error e =>
+    rw [hs] at h
+    constructor
+    · rintro ⟨st, hc⟩; rw [hc] at h; cases h
+    · rintro ⟨ns, hn, _⟩; cases hn
+  | ok ns =>
+    rw [hs] at h
+    obtain ⟨st, hc, _⟩ := h
+    constructor
+    · rintro ⟨st', hc'⟩
+      rw [hc] at hc'
+      cases hc'
+      exact ⟨ns, rfl, rfl⟩
+    · rintro ⟨ns', hn, hb⟩
+      cases hn
+      exact ⟨st, by rw [hb]; exact hc⟩
+
+/-- `NameRedefinedError` is raised exactly when, and where, the by-name meaning says so -/
+theorem elab_redefined_iff (asts : List (List AStmt)) (b off : Nat) :
+    compileBlocks 0 {} asts = .error (.redefined b off) ↔ Spec.blocks asts = .error (.redefined b off) := by
+  have h := elab_sim asts
+  cases hs : Spec.blocks asts with
+  | error e =>
+    rw [hs] at h
+    rw [h]
+    cases e <;> simp [SpecErr.toCompile]
+  | ok ns =>
+    rw [hs] at h
+    obtain ⟨st, hc, _⟩ := h
+    rw [hc]
+    simp
+
+/-- `ProportionGivenForIngredientError` is raised exactly when, and where, the by-name meaning says so -/
+theorem elab_proportion_iff (asts : List (List AStmt)) (b off : Nat) :
+    compileBlocks 0 {} asts = .error (.proportion b off) ↔ Spec.blocks asts = .error (.proportion b off) := by
+  have h := elab_sim asts
+  cases hs : Spec.blocks asts with
+  | error e =>
+    rw [hs] at h
+    rw [h]
+    cases e <;> simp [SpecErr.toCompile]
+  | ok ns =>
+    rw [hs] at h
+    obtain ⟨st, hc, _⟩ := h
+    rw [hc]
+    simp
+
+/-- "nothing else is rejected": elaboration raises no other error and no undocumented exception -/
+theorem elab_no_other_error (asts : List (List AStmt)) :
+    (∀ b, compileBlocks 0 {} asts ≠ .error (.syntaxError b)) ∧
+    (∀ b, compileBlocks 0 {} asts ≠ .error (.zeroDivision b)) ∧
+    (∀ why, compileBlocks 0 {} asts ≠ .error (.internal why)) ∧
+    (∀ x, compileBlocks 0 {} asts ≠ .error (.ok x)) := by
+  have h := elab_sim asts
+  cases hs : Spec.blocks asts with
+  | error e =>
+    rw [hs] at h
+    rw [h]
+    cases e <;> simp [SpecErr.toCompile]
+  | ok ns =>
+    rw [hs] at h
+    obtain ⟨st, hc, _⟩ := h
+    rw [hc]
+    simp
+
+/-- **C01.3 (table)** the table the compiler ends with is exactly the defined names, in definition order; the entry
+    of the definition `(key, sid, idx)` holds the key, the output index `idx`, the root tree of statement `sid`, the
+    block of statement `sid`, and the references to `(sid, idx)` in source order, each with the block of the
+    referencing statement.  The root trees are the trees returned (`bs.flatten`). -/
+theorem elab_table (asts : List (List AStmt)) (bs : List Block) (st : CState)
+    (h : compileBlocks 0 {} asts = .ok (bs, st)) (ns : List NStmt) (hs : Spec.blocks asts = .ok ns) :
+    st.outputs.map view = (definedNames ns).map (tableEntry (rootsOf ns) (ns.map (·.block)) (allRefs ns)) ∧
+    rootsOf ns = bs.flatten := by
+  have h' := elab_sim asts
+  rw [hs] at h'
+  obtain ⟨st', hc, hI, hr⟩ := h'
+  rw [hc] at h
+  cases h
+  exact ⟨hI.table, hr.symm⟩
+
+/-- the same, entry by entry and without defaults -/
+theorem elab_table_entry (asts : List (List AStmt)) (bs : List Block) (st : CState)
+    (h : compileBlocks 0 {} asts = .ok (bs, st)) (ns : List NStmt) (hs : Spec.blocks asts = .ok ns) :
+    st.outputs.length = (definedNames ns).length ∧
+    ∀ (p : Nat) (o : NamedOutput), st.outputs[p]? = some o →
+      ∃ key sid idx s, (definedNames ns)[p]? = some (key, sid, idx) ∧ ns[sid]? = some s ∧
+        o.key = key ∧ o.idx = idx ∧ bs.flatten[sid]? = some o.sub ∧ o.defBlock = s.block ∧
+        o.refs = ((allRefs ns).filter (fun r => r.1 == sid && r.2.1 == idx)).map
+                    (fun r => (Tree.reference o.sub idx r.2.2.1, r.2.2.2)) := by
+  obtain ⟨ht, hr⟩ := elab_table asts bs st h ns hs
+  constructor
+  · simpa using congrArg List.length ht
+  · intro p o ho
+    have h1 : (st.outputs.map view)[p]? = some (view o) := by simp [ho]
+    rw [ht, List.getElem?_map] at h1
+    cases hd : (definedNames ns)[p]? with
+    | none => rw [hd] at h1; cases h1
+    | some d =>
+      rw [hd] at h1
+      simp only [Option.map_some, Option.some.injEq] at h1
+      obtain ⟨key, sid, idx⟩ := d
+      have hlt : sid < ns.length := definedNames_sid_lt (List.mem_of_getElem? hd)
+      have hroot : (rootsOf ns)[sid]? = some ((rootsOf ns)[sid]'(by rw [rootsOf_length]; exact hlt)) :=
+        List.getElem?_eq_getElem _
+      have hblk : (ns.map (·.block))[sid]? = some (ns[sid]).block := by simp [hlt]
+      simp only [tableEntry, hroot, hblk, Option.getD_some, view, Prod.mk.injEq] at h1
+      obtain ⟨e1, e2, e3, e4, e5⟩ := h1
+      refine ⟨key, sid, idx, ns[sid], rfl, List.getElem?_eq_getElem hlt, e1.symm, e2.symm, ?_, e4.symm, ?_⟩
+      · rw [← hr, hroot, e3]
+      · rw [← e5, ← e3]
+
+
+-- ================================================================ C01.1 shape, C01.2 leaves: what the meaning says
+
+/-- the steps of an expression: names and arities, leaves anonymous -/
+inductive Skel where
+  | leaf
+  | node (d : SVS) (children : List Skel)
+
+mutual
+def exprSkel : AExpr → Skel
+  | .ref .. => .leaf
+  | .step name inputs => .node (compileString name) (exprsSkel inputs)
+def exprsSkel : List AExpr → List Skel
+  | [] => []
+  | e :: es => exprSkel e :: exprsSkel es
+end
+
+mutual
+def NTree.skel : NTree → Skel
+  | .ingredient .. => .leaf
+  | .nref .. => .leaf
+  | .step d inputs => .node d (NTree.skels inputs)
+def NTree.skels : List NTree → List Skel
+  | [] => []
+  | t :: ts => t.skel :: NTree.skels ts
+end
+
+mutual
+/-- the written leaves (name, amount) in written order -/
+def exprLeaves : AExpr → List (AString × Option AAmount)
+  | .ref name amount => [(name, amount)]
+  | .step _ inputs => exprsLeaves inputs
+def exprsLeaves : List AExpr → List (AString × Option AAmount)
+  | [] => []
+  | e :: es => exprLeaves e ++ exprsLeaves es
+end
+
+mutual
+def NTree.leaves : NTree → List NTree
+  | .ingredient d q => [.ingredient d q]
+  | .nref sid idx a => [.nref sid idx a]
+  | .step _ inputs => NTree.leavesList inputs
+def NTree.leavesList : List NTree → List NTree
+  | [] => []
+  | t :: ts => t.leaves ++ NTree.leavesList ts
+end
+
+/-- all results, or the first error from the left -/
+def collect {ε α : Type} : List (Except ε α) → Except ε (List α)
+  | [] => .ok []
+  | x :: xs => do
+    let a ← x
+    let as ← collect xs
+    pure (a :: as)
+
+theorem collect_append {ε α : Type} : ∀ (xs ys : List (Except ε α)),
+    collect (xs ++ ys) = (do let a ← collect xs; let b ← collect ys; pure (a ++ b))
+  | [], ys => by
+    simp only [List.nil_append, collect, Except.ok_bind]
+    cases collect ys <;> rfl
+  | x :: xs, ys => by
+    simp only [List.cons_append, collect, collect_append xs ys]
+    cases x with
+    | error e => rfl
+    | ok a =>
+      simp only [Except.ok_bind]
+      cases collect xs with
+      | error e => rfl
+      | ok as =>
+        simp only [Except.ok_bind]
+        cases collect ys <;> rfl
+
+/-- **C01.2** a leaf is a reference iff its normalised name is defined (`d` is the first — by `spec_keys_unique` the
+    only — definition with that name), and then it refers to that definition and carries the written amount, the
+    whole (`Amount.whole`) when none is written; otherwise it is an ingredient with the written name and quantity,
+    unless a proportion is written, which is rejected at the amount's offset. -/
+theorem spec_leaf (done : List NStmt) (block : Nat) (name : AString) (amount : Option AAmount) :
+    (∀ d, (definedNames done).find? (fun d => d.1 == normaliseName (compileString name)) = some d →
+        Spec.leaf done block name amount = .ok (.nref d.2.1 d.2.2 (compileAmount amount)) ∧ d.2.1 < done.length) ∧
+    ((∀ d ∈ definedNames done, (d.1 == normaliseName (compileString name)) = false) →
+        (amount = none → Spec.leaf done block name amount = .ok (.ingredient (compileString name) none)) ∧
+        (∀ o v u sp p, amount = some (.qty o v u sp p) →
+          Spec.leaf done block name amount = .ok (.ingredient (compileString name) (some (compileQuantity v u sp p)))) ∧
+        (∀ o v pc w p, amount = some (.prop o v pc w p) →
+          Spec.leaf done block name amount = .error (.proportion block o))) ∧
+    compileAmount none = Amount.whole := by
+  refine ⟨?_, ?_, rfl⟩
+  · intro d hd
+    refine ⟨?_, definedNames_sid_lt (List.mem_of_find?_eq_some hd)⟩
+    rw [Spec.leaf_def]
+    simp [lookup, hd]
+  · intro hnone
+    have : lookup done (normaliseName (compileString name)) = none := by
+      simp only [lookup, Option.map_eq_none_iff, List.find?_eq_none]
+      intro d hd
+      simp [hnone d hd]
+    refine ⟨?_, ?_, ?_⟩
+    · intro ha; subst ha; rw [Spec.leaf_def, this]
+    · intro o v u sp p ha; subst ha; rw [Spec.leaf_def, this]
+    · intro o v pc w p ha; subst ha; rw [Spec.leaf_def, this]
+
+/-- a reference is produced only for a defined name, an ingredient only for an undefined one -/
+theorem spec_leaf_ref_iff (done : List NStmt) (block : Nat) (name : AString) (amount : Option AAmount) :
+    (∃ sid idx a, Spec.leaf done block name amount = .ok (.nref sid idx a)) ↔
+      ∃ d ∈ definedNames done, (d.1 == normaliseName (compileString name)) = true := by
+  rw [Spec.leaf_def]
+  constructor
+  · rintro ⟨sid, idx, a, h⟩
+    cases hl : lookup done (normaliseName (compileString name)) with
+    | some p =>
+      obtain ⟨d, hd, hk, _⟩ := lookup_some (sid := p.1) (idx := p.2) hl
+      exact ⟨d, hd, hk⟩
+    | none =>
+      rw [hl] at h
+      cases amount with
+      | none => cases h
+      | some am => cases am <;> cases h
+  · rintro ⟨d, hd, hk⟩
+    cases hl : lookup done (normaliseName (compileString name)) with
+    | some p => exact ⟨p.1, p.2, _, rfl⟩
+    | none =>
+      have := lookup_none.mp hl
+      simp only [List.any_map, List.any_eq_false, Function.comp_def] at this
+      have := this d hd
+      simp [hk] at this
+
+theorem leaf_is_leaf {done : List NStmt} {block : Nat} {name : AString} {amount : Option AAmount} {t : NTree}
+    (h : Spec.leaf done block name amount = .ok t) : t.leaves = [t] ∧ t.skel = .leaf := by
+  rw [Spec.leaf_def] at h
+  cases hl : lookup done (normaliseName (compileString name)) with
+  | some p => rw [hl] at h; cases h; exact ⟨rfl, rfl⟩
+  | none =>
+    rw [hl] at h
+    cases amount with
+    | none => cases h; exact ⟨by simp [NTree.leaves], by simp [NTree.skel]⟩
+    | some am =>
+      cases am with
+      | qty o v u sp p => cases h; exact ⟨by simp [NTree.leaves], by simp [NTree.skel]⟩
+      | prop o v pc w p => cases h
+
+mutual
+/-- **C01.1** the tree of an expression has exactly the written steps (names via `compileString`, same arities, same
+    nesting) … -/
+theorem spec_shape {done : List NStmt} {block : Nat} : ∀ (e : AExpr) (nt : NTree),
+    Spec.expr done block e = .ok nt → nt.skel = exprSkel e
+  | .ref name amount, nt, h => by
+    rw [Spec.expr] at h
+    rw [(leaf_is_leaf h).2, exprSkel]
+  | .step name inputs, nt, h => by
+    rw [Spec.expr] at h
+    cases hs : Spec.exprs done block inputs with
+    | error e => rw [hs] at h; cases h
+    | ok ts =>
+      rw [hs] at h
+      cases h
+      simp only [NTree.skel, exprSkel, spec_shape_list inputs ts hs]
+theorem spec_shape_list {done : List NStmt} {block : Nat} : ∀ (es : List AExpr) (nts : List NTree),
+    Spec.exprs done block es = .ok nts → NTree.skels nts = exprsSkel es
+  | [], nts, h => by rw [Spec.exprs] at h; cases h; rfl
+  | e :: es, nts, h => by
+    rw [Spec.exprs] at h
+    cases h1 : Spec.expr done block e with
+    | error x => rw [h1] at h; cases h
+    | ok t =>
+      rw [h1] at h
+      cases h2 : Spec.exprs done block es with
+      | error x => rw [h2] at h; cases h
+      | ok ts =>
+        rw [h2] at h
+        cases h
+        simp only [NTree.skels, exprsSkel, spec_shape e t h1, spec_shape_list es ts h2]
+end
+
+mutual
+/-- **C01.1 / C01.2** … and its leaves are the written leaves, in written order, each elaborated by `Spec.leaf`; when a
+    leaf is rejected the expression is rejected with the error of the first such leaf (depth-first, left to right) -/
+theorem spec_leaves {done : List NStmt} {block : Nat} : ∀ (e : AExpr),
+    (Spec.expr done block e).map NTree.leaves = collect ((exprLeaves e).map fun l => Spec.leaf done block l.1 l.2)
+  | .ref name amount => by
+    rw [Spec.expr]
+    simp only [exprLeaves, List.map_cons, List.map_nil, collect]
+    cases h : Spec.leaf done block name amount with
+    | error e => rfl
+    | ok t => show Except.ok t.leaves = Except.ok [t]; rw [(leaf_is_leaf h).1]
+  | .step name inputs => by
+    rw [Spec.expr, exprLeaves, ← spec_leaves_list inputs]
+    cases Spec.exprs done block inputs with
+    | error e => rfl
+    | ok ts => rfl
+theorem spec_leaves_list {done : List NStmt} {block : Nat} : ∀ (es : List AExpr),
+    (Spec.exprs done block es).map NTree.leavesList =
+      collect ((exprsLeaves es).map fun l => Spec.leaf done block l.1 l.2)
+  | [] => by rw [Spec.exprs]; rfl
+  | e :: es => by
+    rw [Spec.exprs, exprsLeaves, List.map_append, collect_append, ← spec_leaves e, ← spec_leaves_list es]
+    cases Spec.expr done block e with
+    | error x => rfl
+    | ok t =>
+      cases Spec.exprs done block es with
+      | error x => rfl
+      | ok ts => rfl
+end
+
+
+-- ---------------------------------------------------------------- statements of a program
+
+/-- what an accepted statement is: its tree is its expression's, its names are the written ones (all new, checked
+    left to right) and shown, or else the inferred one, not shown -/
+theorem spec_stmt_ok {done : List NStmt} {block : Nat} {s : AStmt} {n : NStmt} (h : Spec.stmt done block s = .ok n) :
+    Spec.expr done block s.expr = .ok n.tree ∧ n.block = block ∧
+    (match s.outputs with
+     | some (o :: os) => n.names = (o :: os).map compileString ∧ n.showNames = true ∧
+         Spec.checkNames block ((definedNames done).map (·.1)) (o :: os) = .ok ()
+     | _ => n.showNames = false ∧ n.names = (match n.tree.inferName with | some x => [x] | none => [])) := by
+  unfold Spec.stmt at h
+  cases he : Spec.expr done block s.expr with
+  | error e => rw [he] at h; cases h
+  | ok t =>
+    rw [he] at h
+    simp only [Except.ok_bind] at h
+    have fin : ∀ {m : NStmt}, (Except.ok m : Except SpecErr NStmt) = .ok n → m = n := fun h => by cases h; rfl
+    match hs : s.outputs with
+    | some (o :: os) =>
+      rw [hs] at h
+      simp only at h ⊢
+      cases hc : Spec.checkNames block ((definedNames done).map (·.1)) (o :: os) with
+      | error e => rw [hc] at h; cases h
+      | ok u => rw [hc] at h; have := fin h; subst this; exact ⟨rfl, rfl, rfl, rfl, rfl⟩
+    | some [] =>
+      rw [hs] at h
+      simp only at h ⊢
+      cases hi : t.inferName with
+      | none => rw [hi] at h; have := fin h; subst this; exact ⟨rfl, rfl, rfl, by simp [hi]⟩
+      | some x => rw [hi] at h; have := fin h; subst this; exact ⟨rfl, rfl, rfl, by simp [hi]⟩
+    | none =>
+      rw [hs] at h
+      simp only at h ⊢
+      cases hi : t.inferName with
+      | none => rw [hi] at h; have := fin h; subst this; exact ⟨rfl, rfl, rfl, by simp [hi]⟩
+      | some x => rw [hi] at h; have := fin h; subst this; exact ⟨rfl, rfl, rfl, by simp [hi]⟩
+
+/-- the statements of a program in source order, each with its block number -/
+def numbered : Nat → List (List AStmt) → List (Nat × AStmt)
+  | _, [] => []
+  | i, b :: bs => b.map (fun s => (i, s)) ++ numbered (i + 1) bs
+
+theorem spec_stmts_at {block : Nat} : ∀ (ss : List AStmt) (done done' : List NStmt),
+    Spec.stmts block done ss = .ok done' →
+    ∃ new, done' = done ++ new ∧ new.length = ss.length ∧
+      ∀ k s, ss[k]? = some s → ∃ n, new[k]? = some n ∧ Spec.stmt (done ++ new.take k) block s = .ok n
+  | [], done, done', h => by
+    rw [Spec.stmts] at h; cases h
+    exact ⟨[], by simp, rfl, by simp⟩
+  | s :: ss, done, done', h => by
+    rw [Spec.stmts] at h
+    cases hs : Spec.stmt done block s with
+    | error e => rw [hs] at h; cases h
+    | ok n =>
+      rw [hs] at h
+      obtain ⟨new, hd, hl, hk⟩ := spec_stmts_at ss (done ++ [n]) done' h
+      refine ⟨n :: new, by simp [hd], by simp [hl], ?_⟩
+      intro k s' hk'
+      cases k with
+      | zero =>
+        simp only [List.getElem?_cons_zero, Option.some.injEq] at hk'
+        subst hk'
+        exact ⟨n, rfl, by simpa using hs⟩
+      | succ k =>
+        simp only [List.getElem?_cons_succ] at hk'
+        obtain ⟨n', hn', hs'⟩ := hk k s' hk'
+        exact ⟨n', by simpa using hn', by simpa using hs'⟩
+
+theorem spec_blocks_at : ∀ (bs : List (List AStmt)) (i : Nat) (done ns : List NStmt),
+    Spec.blocksFrom i done bs = .ok ns →
+    ∃ new, ns = done ++ new ∧ new.length = (numbered i bs).length ∧
+      ∀ k p, (numbered i bs)[k]? = some p → ∃ n, new[k]? = some n ∧ Spec.stmt (done ++ new.take k) p.1 p.2 = .ok n
+  | [], i, done, ns, h => by
+    rw [Spec.blocksFrom] at h; cases h
+    exact ⟨[], by simp, rfl, by simp [numbered]⟩
+  | b :: bs, i, done, ns, h => by
+    rw [Spec.blocksFrom] at h
+    cases hs : Spec.stmts i done b with
+    | error e => rw [hs] at h; cases h
+    | ok done1 =>
+      rw [hs] at h
+      obtain ⟨new1, hd1, hl1, hk1⟩ := spec_stmts_at b done done1 hs
+      obtain ⟨new2, hd2, hl2, hk2⟩ := spec_blocks_at bs (i + 1) done1 ns h
+      refine ⟨new1 ++ new2, by rw [hd2, hd1, List.append_assoc], by simp [numbered, hl1, hl2], ?_⟩
+      intro k p hp
+      simp only [numbered] at hp
+      by_cases hlt : k < b.length
+      · rw [List.getElem?_append_left (by simpa using hlt)] at hp
+        simp only [List.getElem?_map, Option.map_eq_some_iff] at hp
+        obtain ⟨s, hs', rfl⟩ := hp
+        obtain ⟨n, hn, hst⟩ := hk1 k s hs'
+        refine ⟨n, by rw [List.getElem?_append_left (by omega)]; exact hn, ?_⟩
+        rw [List.take_append_of_le_length (by omega)]
+        exact hst
+      · rw [List.getElem?_append_right (by simpa using Nat.le_of_not_lt hlt)] at hp
+        simp only [List.length_map] at hp
+        obtain ⟨n, hn, hst⟩ := hk2 (k - b.length) p hp
+        refine ⟨n, by rw [List.getElem?_append_right (by omega), hl1]; exact hn, ?_⟩
+        rw [List.take_append, List.take_of_length_le (by omega), hl1, ← List.append_assoc, ← hd1]
+        exact hst
+
+/-- **by name, statement by statement**: the `k`-th statement of the program (in source order, of block `p.1`) is
+    elaborated against exactly the statements before it -/
+theorem spec_stmt_at (asts : List (List AStmt)) (ns : List NStmt) (h : Spec.blocks asts = .ok ns) :
+    ns.length = (numbered 0 asts).length ∧
+    ∀ k p, (numbered 0 asts)[k]? = some p → ∃ n, ns[k]? = some n ∧ Spec.stmt (ns.take k) p.1 p.2 = .ok n := by
+  obtain ⟨new, hd, hl, hk⟩ := spec_blocks_at asts 0 [] ns h
+  simp only [List.nil_append] at hd hk
+  subst hd
+  exact ⟨hl, hk⟩
+
+/-- **C01.1, program level** every statement's tree has the written steps and leaves in written order, each leaf
+    resolved against the earlier statements only -/
+theorem spec_shape_program (asts : List (List AStmt)) (ns : List NStmt) (h : Spec.blocks asts = .ok ns)
+    (k : Nat) (p : Nat × AStmt) (hp : (numbered 0 asts)[k]? = some p) :
+    ∃ n, ns[k]? = some n ∧ n.block = p.1 ∧ n.tree.skel = exprSkel p.2.expr ∧
+      (exprLeaves p.2.expr).map (fun l => Spec.leaf (ns.take k) p.1 l.1 l.2) = n.tree.leaves.map .ok := by
+  obtain ⟨n, hn, hs⟩ := (spec_stmt_at asts ns h).2 k p hp
+  obtain ⟨he, hb, _⟩ := spec_stmt_ok hs
+  refine ⟨n, hn, hb, spec_shape _ _ he, ?_⟩
+  have hl := spec_leaves (done := ns.take k) (block := p.1) p.2.expr
+  rw [he] at hl
+  have hl' : collect ((exprLeaves p.2.expr).map fun l => Spec.leaf (ns.take k) p.1 l.1 l.2) = .ok n.tree.leaves :=
+    hl.symm
+  have : ∀ (xs : List (Except SpecErr NTree)) (ys : List NTree), collect xs = .ok ys → xs = ys.map .ok := by
+    intro xs
+    induction xs with
+    | nil => intro ys h; cases h; rfl
+    | cons x xs ih =>
+      intro ys h
+      rw [collect] at h
+      cases x with
+      | error e => cases h
+      | ok a =>
+        simp only [Except.ok_bind] at h
+        cases hc : collect xs with
+        | error e => rw [hc] at h; cases h
+        | ok as => rw [hc] at h; cases h; simp [ih as hc]
+  exact this _ _ hl'
+
+/-- every defined name resolves to its own definition: nothing is shadowed -/
+theorem spec_lookup_defined (asts : List (List AStmt)) (ns : List NStmt) (h : Spec.blocks asts = .ok ns) :
+    ∀ d ∈ definedNames ns, lookup ns d.1 = some d.2 := by
+  have h' := elab_sim asts
+  rw [h] at h'
+  obtain ⟨st, _, hI, _⟩ := h'
+  intro d hd
+  unfold lookup
+  cases hf : (definedNames ns).find? (fun x => x.1 == d.1) with
+  | none =>
+    have := List.find?_eq_none.mp hf d hd
+    simp at this
+  | some d' =>
+    have hk : (d'.1 == d.1) = true := by simpa using List.find?_some hf
+    rw [hI.uniq d' (List.mem_of_find?_eq_some hf) d hd hk]
+    rfl
+
+/-- in an accepted program no name is defined twice (the names are pairwise different, ignoring case and
+    surrounding whitespace) -/
+theorem spec_keys_unique (asts : List (List AStmt)) (ns : List NStmt) (h : Spec.blocks asts = .ok ns) :
+    KeysUnique (definedNames ns) := by
+  have h' := elab_sim asts
+  rw [h] at h'
+  obtain ⟨st, _, hI, _⟩ := h'
+  exact hI.uniq
+
+
+-- ================================================================ non-vacuity: a concrete program, both sides evaluated
+
+section Examples
+/- (names are mostly upper case only because the kernel finds `A`–`Z` at the start of the lower-casing table) -/
+private def str (off : Nat) (s : Str) : AString := [.sub off s]
+private def oneHalf : Num := ⟨⟨1, 2, by decide, by decide⟩, .frac⟩
+private def half : Option AAmount := some (.prop 42 (some oneHalf) false (some [' ', 'o', 'f']) [' '])
+
+/-- block 0: `JAM := mix(FIG, 1 tsp NUT)`, `fry(EGG)` (defines `egg` by inference),
+             `pour(1/2 of  JAm , EGG)` (two later references, ignoring case and whitespace);
+    block 1: `serve(JAM, RYE)` (a cross-block reference and an ingredient) -/
+private def prog : List (List AStmt) :=
+  [[ ⟨.step (str 7 ['m', 'i', 'x']) [.ref (str 11 ['F', 'I', 'G']) none,
+        .ref (str 22 ['N', 'U', 'T']) (some (.qty 16 ⟨1, .int⟩ (some (str 18 ['t', 's', 'p'])) [' '] []))],
+      some [str 0 ['J', 'A', 'M']], true⟩,
+     ⟨.step (str 27 ['f', 'r', 'y']) [.ref (str 31 ['E', 'G', 'G']) none], none, false⟩,
+     ⟨.step (str 36 ['p', 'o', 'u', 'r']) [.ref (str 49 [' ', 'J', 'A', 'm', ' ']) half, .ref (str 55 ['E', 'G', 'G']) none],
+      none, false⟩ ],
+   [ ⟨.step (str 0 ['s', 'e', 'r', 'v', 'e']) [.ref (str 6 ['J', 'A', 'M']) none, .ref (str 11 ['R', 'Y', 'E']) none],
+      none, false⟩ ]]
+/-- block 2 added: `Y, EGG  = X` redefines the inferred name `egg` -/
+private def progRedef : List (List AStmt) :=
+  prog ++ [[⟨.ref (str 10 ['X']) none, some [str 0 ['Y'], str 3 ['E', 'G', 'G', ' ']], false⟩]]
+/-- block 2 added: `1/2 of X`, where `X` is not a sub recipe -/
+private def progProp : List (List AStmt) := prog ++ [[⟨.ref (str 50 ['X']) half, none, false⟩]]
+
+example : (compileBlocks 0 {} prog).map (·.1) =
+    ((Spec.blocks prog).map (embed prog.length)).mapError SpecErr.toCompile := by decide +kernel
+/-- the meaning of `prog`: the definitions (the inferred one not shown), and the references by (statement, output)
+    with their amounts and the referencing block -/
+example : (Spec.blocks prog).toOption.map (fun ns => (definedNames ns, ns.map (·.showNames), ns.map (·.block))) =
+      some ([([.text ['j', 'a', 'm']], 0, 0), ([.text ['e', 'g', 'g']], 1, 0)], [true, false, false, false], [0, 0, 0, 1]) ∧
+    (Spec.blocks prog).toOption.map allRefs =
+      some [(0, 0, .proportion (some oneHalf) false (some [' ', 'o', 'f']) [' '], 0), (1, 0, Amount.whole, 0),
+            (0, 0, Amount.whole, 1)] := ⟨by decide +kernel, by decide +kernel⟩
+/-- the compiled third statement holds copies of the first two -/
+example : (match compileBlocks 0 {} prog with
+    | .ok ([t0, t1, t2] :: _, _) =>
+      decide (t2 = .step [.text ['p', 'o', 'u', 'r']] [.reference t0 0 (compileAmount half), .reference t1 0 Amount.whole])
+    | _ => false) = true := by decide +kernel
+example : (compileBlocks 0 {} progRedef).map (·.1) = .error (.redefined 2 3) ∧
+    (Spec.blocks progRedef).map (embed 3) = .error (.redefined 2 3) := ⟨by decide +kernel, by decide +kernel⟩
+example : (compileBlocks 0 {} progProp).map (·.1) = .error (.proportion 2 42) ∧
+    (Spec.blocks progProp).map (embed 3) = .error (.proportion 2 42) := ⟨by decide +kernel, by decide +kernel⟩
+end Examples
+
 end RG.C01
